@@ -8,6 +8,7 @@ All statements are for every rank and every extent (no bound).
 -/
 import TetlProofs.C19.Lemmas
 import TetlProofs.C19.Mapping
+import TetlProofs.C19.Extents
 namespace Tetl.C19.Props
 open Tetl Tetl.C19 Tetl.C19.Spec Tetl.C19.Lemmas
 
@@ -117,6 +118,40 @@ theorem mdarray_access_eq (l : Lay) (t : IdxT) (hv : IdxT.Valid t) (e : Ext) (va
 example : ∃ e, Ext.ofVals ⟨32, true⟩ [some 2, none] [2, 3] = .ok e ∧ e.extent ⟨32, true⟩ 0 = .ok 2
     ∧ e.extent ⟨32, true⟩ 1 = .ok 3 ∧ Fits ⟨32, true⟩ [2, 3] ∧ IdxT.Valid ⟨32, true⟩ :=
   ⟨_, rfl, rfl, rfl, by decide, ⟨by decide, by decide⟩⟩
+
+/-! ## extents constructors -/
+
+/-- every constructor of `extents` (rank_dynamic() values or rank() values; the pack, array and span forms reach the
+    same code) never leaves the `_extents` array and yields an object that reports exactly the given extents, for
+    every static/dynamic pattern consistent with them -/
+theorem extents_ctor_eq (t : IdxT) (hv : IdxT.Valid t) (pat : Pat) (vals : List Nat) (hc : Consistent pat vals)
+    (hm : ∀ x ∈ vals, x ≤ t.maxV) (all : Bool) :
+    ∃ e, Ext.ofVals t pat (ctorArgs pat vals all) = .ok e ∧ ExtIs t e vals :=
+  ofVals_extIs t hv pat vals hc hm all
+example : Consistent [some 2, none, some 4] [2, 3, 4] ∧ ctorArgs [some 2, none, some 4] [2, 3, 4] false = [3]
+    ∧ ctorArgs [some 2, none, some 4] [2, 3, 4] true = [2, 3, 4] := by decide
+
+/-- the converting constructor never leaves the `_extents` array and preserves every extent, for every pair of
+    compatible patterns (static <- dynamic, dynamic <- static, mixed) and index types -/
+theorem conv_extent_eq (t ts : IdxT) (hv : IdxT.Valid t) (p : Pat) (src : Ext) (vals : List Nat)
+    (hs : ExtIs ts src vals) (hc : Consistent p vals) (hm : ∀ x ∈ vals, x ≤ t.maxV) :
+    ∃ e, Ext.conv t ts p src = .ok e ∧ ExtIs t e vals := conv_extIs t ts hv p src vals hs hc hm
+example : Consistent [none, some 3] [2, 3] ∧ Consistent [some 2, none] [2, 3] := by decide
+
+/-- end to end: construct an extents object with any constructor and any pattern, build a layout_left/right mapping on
+    it: `operator()` returns the closed form, inside `required_span_size() = Π extents`, without any failing access -/
+theorem ctor_mapping_closed_form (l : Lay) (t : IdxT) (hv : IdxT.Valid t) (pat : Pat) (vals : List Nat)
+    (hc : Consistent pat vals) (hf : Fits t vals) (all : Bool) (idx : List Nat) (hr : InRange vals idx) :
+    ∃ e, Ext.ofVals t pat (ctorArgs pat vals all) = .ok e
+      ∧ mapIdx l t e (idx.map Int.ofNat) = .ok ((offSpec l vals idx : Nat) : Int)
+      ∧ reqSpan l t e = .ok ((prod vals : Nat) : Int) ∧ offSpec l vals idx < prod vals := by
+  have hm : ∀ x ∈ vals, x ≤ t.maxV := by
+    intro x hx
+    obtain ⟨k, hk, rfl⟩ := List.getElem_of_mem hx
+    exact fits_elem t vals hf k hk
+  obtain ⟨e, h1, h2⟩ := ofVals_extIs t hv pat vals hc hm all
+  exact ⟨e, h1, mapIdx_eq l t hv e vals h2 hf idx hr, reqSpan_eq l t hv e vals h2 hf, offSpec_lt l vals idx hr⟩
+example : Consistent [some 2, none, some 4] [2, 3, 4] ∧ Fits ⟨8, true⟩ [2, 3, 4] ∧ InRange [2, 3, 4] [1, 2, 3] := by decide
 
 /-! ## span::first / last / subspan (`SpanWF`: inside the base range, static extent = size) -/
 
